@@ -3,7 +3,7 @@ import sys
 import time
 from typing import Any, List
 
-from mc import runner
+from mc import findings, runner
 from mc.gen import atoms as A
 from mc.gen import spaces
 
@@ -82,11 +82,23 @@ def worker(item: Any, res: runner.Result) -> None:
     outcome = tuple((b.entry_instr.line, case.ctx(b).max_fee, case.ctx(b).max_fee_unknown) for b in case.function.blocks)
     if mode in ("direct", "g1a"):
         n_fee = sum(1 for l in case.lines if l.op == "txn" and l.args[0] == "Fee")
-        abstract.check_c09_abstract(case, item, res, single_atom=n_fee == 1)
+        # a comparison whose value is left on the stack at the end of the program is neither asserted
+        # nor branched on: exactness is not demanded there
+        abstract.check_c09_abstract(case, item, res, single_atom=n_fee == 1 and not (mode == "g1a" and sem.can_fall_off_end(case.lines)))
     res.outcome(outcome)
     if any(0 < mf < (1 << 64) - 1 for _, mf, _ in outcome):
         res.mark_nontrivial(src)
     res.sample({"program": src, "max_fee": [list(o) for o in outcome]})
+
+
+_ATTR = None
+
+
+def attribute(entry: Any, v: Any) -> bool:
+    global _ATTR  # pylint: disable=global-statement
+    if _ATTR is None:
+        _ATTR = findings.any_of(findings.by_repair(worker, lambda it: it[-1], lambda it, s: tuple(it[:-1]) + (s,)), findings.by_patch(worker))
+    return _ATTR(entry, v)
 
 
 def main(argv: List[str]) -> int:
